@@ -37,7 +37,11 @@ if SCRATCH:
     rc, out = sh('git -C /repo worktree add --detach %s HEAD' % TARGET); assert rc == 0, out
     ENV['VERIF_REPO'] = TARGET
     ENV['VERIF_WORK'] = TARGET + '-work'
+    ENV['VERIF_EVIDENCE_DIR'] = TARGET + '-work/evidence'
 alt = os.path.join('/verif/seeded', '%s-%s%s' % (prop, which, rnd), 'patch.diff')
+if not os.path.exists(patch) and os.path.exists(alt):
+    patch = alt             # the author's worktree is gone: use the stored copy
+    STORED_ONLY = True
 rc, out = sh('git -C %s apply ' % TARGET + patch)
 if rc != 0 and os.path.exists(alt):
     patch_used = alt        # a copy ported by hand to the current tree
@@ -61,7 +65,12 @@ finally:
         sh('git -C /repo reset -q && git -C /repo checkout -- .')
         print(sh('git -C /repo status --short --untracked-files=no')[1].strip() or 'repo clean')
     sh('rm -rf /verif/replays/*/[!fo]*-????????.json')
-if '--keep' in sys.argv:
+if '--keep' in sys.argv and 'STORED_ONLY' in globals():
+    dst = os.path.dirname(alt)
+    meta = json.load(open(os.path.join(dst, 'meta.json')))
+    meta['check_results'].update({'%s:%s' % (k, tier): v for k, v in results.items()})
+    json.dump(meta, open(os.path.join(dst, 'meta.json'), 'w'), indent=1)
+elif '--keep' in sys.argv:
     dst = '/verif/seeded/%s-%s%s' % (prop, which, rnd); os.makedirs(dst, exist_ok=True)
     if not os.path.exists(os.path.join(dst, 'patch.diff')) or open(os.path.join(dst, 'patch.diff')).read() == open(patch).read() or True:
         pass
